@@ -2,7 +2,9 @@
 package lease_set2
 
 import (
+	"crypto"
 	"crypto/ed25519"
+	"crypto/sha512"
 	"encoding/binary"
 	"sort"
 	"strings"
@@ -1010,7 +1012,7 @@ func createLeaseSet2Signature(signingKey interface{}, data []byte, sigType uint1
 	// Verify() succeeds on what this constructor returns. Only a nil key keeps the historical
 	// unsigned placeholder (a zero signature of the correct size).
 	if signingKey != nil {
-		signatureData, err := signLeaseSet2Data(signingKey, data)
+		signatureData, err := signLeaseSet2Data(signingKey, data, sigType)
 		if err != nil {
 			return sig.Signature{}, err
 		}
@@ -1034,7 +1036,24 @@ func createLeaseSet2Signature(signingKey interface{}, data []byte, sigType uint1
 
 // signLeaseSet2Data signs data with the private key representations also accepted by
 // encrypted_leaseset.NewEncryptedLeaseSet, plus any types.SigningPrivateKey of go-i2p/crypto.
-func signLeaseSet2Data(signingKey interface{}, data []byte) ([]byte, error) {
+func signLeaseSet2Data(signingKey interface{}, data []byte, sigType uint16) ([]byte, error) {
+	// A raw Ed25519 key used as an Ed25519ph (type 8) transient key signs the SHA-512 pre-hash
+	// with domain separation (RFC 8032 section 5.1), not the message itself.
+	if sigType == key_certificate.KEYCERT_SIGN_ED25519PH {
+		var raw []byte
+		switch key := signingKey.(type) {
+		case ed25519.PrivateKey:
+			raw = key
+		case [64]byte:
+			raw = key[:]
+		case []byte:
+			raw = key
+		}
+		if len(raw) == ed25519.PrivateKeySize {
+			digest := sha512.Sum512(data)
+			return ed25519.PrivateKey(raw).Sign(nil, digest[:], &ed25519.Options{Hash: crypto.SHA512})
+		}
+	}
 	switch key := signingKey.(type) {
 	case types.SigningPrivateKey:
 		signer, err := key.NewSigner()
